@@ -414,14 +414,18 @@ CTX = Ctx()
 
 def ack(name, args, evalfn):
     """fresh real constant standing for name(args); same (simplified) args -> same constant"""
-    key = (name,) + tuple((a if type(a) is Fr else z3.simplify(a).get_id()) for a in args)
+    # the simplified arguments are computed ONCE and kept alive for the lifetime of the table: z3 AST ids are only unique
+    # among live nodes, so an id taken from a temporary could later be reused by a different term (a false hit would
+    # identify two different applications)
+    simp = [(a if type(a) is Fr else z3.simplify(a)) for a in args]
+    key = (name,) + tuple((a if type(a) is Fr else a.get_id()) for a in simp)
     ent = CTX.ack.get(key)
     if ent is None:
         c = z3.Real("%s!%d" % (name, len(CTX.ack_list)))
         ent = c
         CTX.ack[key] = c
         CTX.ack_list.append((c, name, tuple(args), evalfn))
-        CTX.ack_keep.append([z3.simplify(a) for a in args if type(a) is not Fr])
+        CTX.ack_keep.append(simp)
         return c, True
     return ent, False
 
@@ -1364,7 +1368,7 @@ def evalf(t, env, cache=None):
 def _ev(t, env, cache):
     k = t.get_id()
     if k in cache:
-        return cache[k]
+        return cache[k][0]
     kind = t.decl().kind()
     if z3.is_rational_value(t) or z3.is_int_value(t):
         r = float(Fr(t.numerator_as_long(), t.denominator_as_long())) if z3.is_rational_value(t) else float(t.as_long())
@@ -1395,7 +1399,7 @@ def _ev(t, env, cache):
             r = _evb(kind, ch)
         else:
             raise Unsupported("evalf: unsupported op %s" % t.decl().name())
-    cache[k] = r
+    cache[k] = (r, t)  # keeping t alive keeps its id unique for the lifetime of the cache
     return r
 
 
